@@ -157,6 +157,42 @@ theorem search_spec (xs : List Pair) (g : Int) (hs : SortedG xs) (hne : xs ≠ [
     subst hjr'; rw [hp] at hj; cases hj; exact hqg
   · rw [hp] at hp'; cases hp'; omega
 
+/-! ### 32-bit `int` arithmetic -/
+
+theorem fitsI32_iff (i : Int) : fitsI32 i = true ↔ -2147483648 ≤ i ∧ i ≤ 2147483647 := by
+  simp [fitsI32]
+
+theorem searchLoopI32_eq (xs : List Pair) (g : Int) (hlen : xs.length ≤ 1073741824) :
+    ∀ (fuel : Nat) (low high : Int), 0 ≤ low → high ≤ (xs.length : Int) - 1 →
+      searchLoopI32 xs g fuel low high = searchLoop xs g fuel low high := by
+  intro fuel
+  induction fuel with
+  | zero => intro low high _ _; rfl
+  | succ f ih =>
+    intro low high h0 hh
+    unfold searchLoopI32 searchLoop
+    by_cases hlt : low < high
+    · have hfit : fitsI32 (high + low) = true := (fitsI32_iff _).2 (by omega)
+      have hp : Int.tdiv (high + low) 2 = (high + low) / 2 := Int.tdiv_eq_ediv_of_nonneg (by omega)
+      simp only [hlt, if_true, hfit, Bool.not_true, Bool.false_eq_true, if_false, hp]
+      cases hg : gAt xs ((high + low) / 2) with
+      | none => rfl
+      | some gp =>
+        simp only []
+        by_cases hc : gp ≥ g
+        · simp only [hc, if_true]
+          exact ih low ((high + low) / 2) h0 (by omega)
+        · have hfit2 : fitsI32 ((high + low) / 2 + 1) = true := (fitsI32_iff _).2 (by omega)
+          simp only [hc, if_false, hfit2, Bool.not_true, Bool.false_eq_true]
+          exact ih ((high + low) / 2 + 1) high (by omega) hh
+    · simp only [hlt, if_false]
+
+theorem searchI32_eq (xs : List Pair) (g : Int) (hlen : xs.length ≤ 1073741824) : searchI32 xs g = search xs g := by
+  have hfit : fitsI32 ((xs.length : Int) - 1) = true := (fitsI32_iff _).2 (by omega)
+  unfold searchI32 search
+  simp only [hfit, Bool.not_true, Bool.false_eq_true, if_false]
+  exact searchLoopI32_eq xs g hlen xs.length 0 _ (Int.le_refl _) (Int.le_refl _)
+
 /-! ### the three lookups on ascending lists -/
 
 theorem existsL_spec (xs : List Pair) (g : Int) (hs : SortedG xs) :
